@@ -142,6 +142,46 @@ let handle kind a =
       let (ls, st') = run_read_lines cap (mk a.(0) a.(2)) in
       Some (String.concat ";" (List.map (fun (n, l) -> string_of_int (int_of_nat n) ^ ":" ^ hex_of_bytes l) ls)
             ^ "|Ok|" ^ string_of_int (hexlen a.(0) - int_of_nat (b_left st')))
+  | ("gzir" | "bair" | "fair") as k ->
+      (* read programs over the scripted source: data cap script *)
+      let cap = nat_of_int (int_of_string a.(1)) in
+      let src = mk a.(0) a.(2) in
+      let fl sep l f = if l = [] then "_" else String.concat sep (List.map f l) in
+      let fo o f = match o with None -> "-" | Some x -> f x in
+      let pairs cs = fl "," cs (fun (x, y) -> dec_of_n x ^ ":" ^ dec_of_n y) in
+      let fin (r, left) f = cres_s (fun x -> "Ok:" ^ f x) r ^ "|" ^ string_of_int (hexlen a.(0) - int_of_nat left) in
+      (match k with
+       | "gzir" -> Some (fin (run_gzi cap src) pairs)
+       | "bair" ->
+           let meta mo = fo mo (fun m ->
+             String.concat ":" [dec_of_n m.m_beg; dec_of_n m.m_end; dec_of_n m.m_mapped; dec_of_n m.m_unmapped]) in
+           let bins bs = fl ";" bs (fun (id, cs) -> dec_of_n id ^ "=" ^ pairs cs) in
+           let tref r = String.concat "|" [bins r.br_bins; meta r.br_meta; fl "," r.br_intervals dec_of_n] in
+           Some (fin (run_bai cap src) (fun i -> fl "/" i.bi_refs tref ^ " " ^ fo i.bi_unplaced dec_of_n))
+       | _ ->
+           Some (fin (run_fai cap src) (fun rs -> fl ";" rs (fun r -> String.concat ":"
+             [hex_of_bytes r.f_name0; dec_of_n r.f_len0; dec_of_n r.f_pos0; dec_of_n r.f_lb0; dec_of_n r.f_lw0]))))
+  | "bcfr" ->
+      (* data cap script chunk table(sitehex=code,...) *)
+      let cap = nat_of_int (int_of_string a.(1)) in
+      let chunk = nat_of_int (int_of_string a.(3)) in
+      let tab = if a.(4) = "_" then [] else
+        List.map (fun t -> match split_on '=' t with
+          | [h; c] -> (bytes_of_hex h, nat_of_int (int_of_string c)) | _ -> failwith "tab") (split_on ',' a.(4)) in
+      let (r, left) = run_bcf tab cap chunk (mk a.(0) a.(2)) in
+      Some (cres_s (fun rs -> "Ok:" ^ String.concat "," (List.map (fun (site, sm) ->
+              string_of_int (List.length site + List.length sm)) rs)) r
+            ^ "|" ^ string_of_int (hexlen a.(0) - int_of_nat left))
+  | "cramc" ->
+      (* data cap script chunk *)
+      let cap = nat_of_int (int_of_string a.(1)) in
+      let chunk = nat_of_int (int_of_string a.(3)) in
+      let (r, left) = run_cram cap chunk (mk a.(0) a.(2)) in
+      Some (cres_s (fun cs -> "Ok:" ^ String.concat ";" (List.map (fun ((h, _), blen) ->
+              String.concat ":" [string_of_int (int_of_nat blen); dec_of_n h.ch_nrec; dec_of_n h.ch_counter;
+                                 dec_of_n h.ch_bases; dec_of_n h.ch_nblocks;
+                                 String.concat "," (List.map dec_of_n h.ch_landmarks)]) cs)) r
+            ^ "|" ^ string_of_int (hexlen a.(0) - int_of_nat left))
   | _ -> None
 
 let () = run_driver handle
